@@ -261,7 +261,17 @@ def main():
     factory = ftp.FTPFactory(p)
     factory.protocol = RecordedFTP
     factory.timeOut = 120
-    port = reactor.listenTCP(0, factory, interface="127.0.0.1")
+    factory.passivePortRange = (0, 0, 0, 0)  # getDTPPort tries each entry: retry a busy ephemeral range
+    from twisted.internet.error import CannotListenError
+    import time
+    for delay in (0.5, 1.5, 4.0, None):
+        try:
+            port = reactor.listenTCP(0, factory, interface="127.0.0.1")
+            break
+        except CannotListenError:
+            if delay is None:
+                raise
+            time.sleep(delay)
     os.chdir(cfg["cwd"])  # relative paths escaping to the process cwd land inside the scratch area
     reactor.callLater(cfg.get("lifetime", 600), reactor.stop)  # orphan guard, not a verdict
     drop_privileges()  # nothing has been served yet: the port is only announced below
